@@ -20,6 +20,8 @@ type engine struct {
 	rng *lib.Rng
 	m   *lib.Model
 	rep *lib.Report
+	// unsubRelayShown counts how often the known finding pubsub.mesh:unsubscribed-relay was reported
+	unsubRelayShown int
 }
 
 func main() {
